@@ -216,7 +216,12 @@ def run(tier):
         ck.nontrivial(["msg", text, fl2])
     if len(records) < 0.5 * len(bs):
         raise common.MachineryFailure("only %d of %d documents loaded" % (len(records), len(bs)))
-    verdicts = tracecheck.validate("TracePositions", records, "c08", ck=ck, chunk=500)
+    def canary(r):
+        if not r["obs"] or r["missing"]:
+            return None
+        r["obs"][-1]["col"] += 1
+        return r
+    verdicts = tracecheck.validate("TracePositions", records, "c08", ck=ck, chunk=500, canary=canary)
     for tid, vd in verdicts.items():
         if vd["verdict"] != "ok":
             ck.violation("C08|%s" % vd["verdict"], "recorded position differs from the token's position: %s" % vd["verdict"],
